@@ -533,7 +533,13 @@ func ruleC15(c *Ctx) {
 					if isNilConst(og.val) {
 						continue
 					}
-					if factsAtHas(og.at, "field:protocol/state.Validator.Order == ") {
+					hasOrder := false
+					for ft := range originFacts(og) {
+						if strings.Contains(ft, "field:protocol/state.Validator.Order == ") {
+							hasOrder = true
+						}
+					}
+					if hasOrder {
 						n++
 					} else {
 						n = -100
